@@ -15,7 +15,8 @@ func init() {
 		decided: "R1 the top-level handler and the errors handler defer a function that recovers and, when something was recovered, reaches a 500 write on every path without executing anything that can itself panic by construction (unchecked type assertion, explicit panic); " +
 			"R2 in every in-repository handler, a write to the client that can follow Next.ServeHTTP is guarded by status >= 400 of that very call (or by the buffered-response idiom), and headers of a buffered response are copied to the real writer only when no error return can follow; " +
 			"R3 the server's fallback error writer runs under exactly status >= 400 of the chain's result; gzip writes its fallback to the unwrapped writer; " +
-			"R4 each wrapper writer commits the header from Write only while its own 'written' flag is unset and sets the flag whenever it commits.",
+			"R4 each wrapper writer commits the header from Write only while its own 'written' flag is unset and sets the flag whenever it commits; " +
+			"R5 the gzip handler finishes the compressed stream exactly once on every exit (one deferred release registered before the next handler runs, conditional on nothing but the compressor's existence, closing before pooling).",
 		notDecided: "client-visible byte equality; liveness of net/http after a panic; handlers outside the repository.",
 	})
 }
@@ -27,6 +28,7 @@ func runC12(r *Report, p *Program) {
 	c12R2(h, dm)
 	c12R3(h)
 	c12R4(h)
+	gzipStreamRule(h, "R5")
 }
 
 // writes500: the instruction writes a 500 response (DefaultErrorFunc/WriteTextResponse/errorPage with constant 500).
@@ -287,6 +289,111 @@ func c12R2(h H, dm *DirMap) {
 	if checked < 5 {
 		r.Unresolve("R2", sprintf("only %d post-Next writes examined", checked))
 	}
+	// return side of the contract: status 0 from the next handler means "response written".  A handler may pass the
+	// next handler's status on, or report 0; it may report a status of its own making only where the downstream
+	// response was not committed (buffered) or the next handler itself reported >= 400 (nothing written yet).
+	// Anything else makes the caller write a second response on top of the first.
+	r.Rule("R6", "(status, error) contract, return side: in every in-repository handler, a status returned after a Next.ServeHTTP invoke is that invoke's own status, the constant 0, or — only behind ResponseBuffer.Buffered(), behind internal's redirect-pending test (its writer discards such responses) or behind status >= 300 of that invoke — a status of the handler's own making", 2)
+	ret := 0
+	for _, x := range hs2 {
+		fn := x.fn
+		if len(fn.Blocks) == 0 {
+			continue
+		}
+		nx := nextInvokes(fn)
+		for k, n := range nx {
+			status := statusOf(n)
+			for _, rt := range realReturns(fn) {
+				if !canReach(fn, n, rt, cut{}) {
+					continue
+				}
+				res := retResults(rt)
+				if len(res) != 2 {
+					continue
+				}
+				if ex, ok := res[0].(*ssa.Extract); ok && ex.Tuple == n.(ssa.Value) {
+					continue // return next.ServeHTTP(w, r)
+				}
+				uncommitted := false
+				for _, g := range guardAtoms(fn, n, rt) {
+					if xv, lo, _, hasLo, _, ok := atomIntBounds(g); ok && hasLo && lo >= 300 && status != nil && sameOrLoadOf(xv, status) {
+						uncommitted = true
+					}
+					if cc, ok := g.Cond.(*ssa.Call); ok && strings.HasSuffix(calleeName(&cc.Call), "ResponseBuffer).Buffered") && g.Pos {
+						uncommitted = true
+					}
+					if cc, ok := g.Cond.(*ssa.Call); ok && strings.HasSuffix(calleeName(&cc.Call), "internalsrv.isInternalRedirect") && g.Pos {
+						uncommitted = true // internal's writer drops everything while the redirect header is set
+					}
+				}
+				var own []string
+				for _, v := range valuesAt(fn, res[0], rt) {
+					if c, ok := constInt(v); ok && c == 0 {
+						continue
+					}
+					fromNext := false
+					for _, m := range nx {
+						if st := statusOf(m); st != nil && sameOrLoadOf(v, st) {
+							fromNext = true
+						}
+					}
+					if fromNext && !derivesFromOther(v, nx) {
+						continue
+					}
+					own = append(own, describe(v))
+				}
+				if len(own) == 0 {
+					continue
+				}
+				ret++
+				r.Check(uncommitted, "R6", sprintf("%s/own-status-after-next#%d@%s", shortFunc(fn), k+1, strings.Join(own, ",")), rt.Pos(),
+					"a status that is not the next handler's own is reported only where the downstream response is known not to be committed (buffered, or the next handler reported an error status)", own...)
+			}
+		}
+	}
+	_ = ret
+}
+
+// derivesFromOther: v mixes the next handler's status with something else (a φ or expression with other inputs).
+func derivesFromOther(v ssa.Value, nx []ssa.Instruction) bool {
+	seen := map[ssa.Value]bool{}
+	other := false
+	var walk func(v ssa.Value, d int)
+	walk = func(v ssa.Value, d int) {
+		if v == nil || seen[v] || d > 20 || other {
+			return
+		}
+		seen[v] = true
+		switch t := v.(type) {
+		case *ssa.Extract:
+			for _, n := range nx {
+				if t.Tuple == n.(ssa.Value) {
+					return
+				}
+			}
+			other = true
+		case *ssa.Phi:
+			for _, e := range t.Edges {
+				walk(e, d+1)
+			}
+		case *ssa.Const:
+			if c, ok := constInt(t); !ok || c != 0 {
+				other = true
+			}
+		case *ssa.UnOp:
+			if a, ok := t.X.(*ssa.Alloc); ok {
+				for _, s := range storesTo(a) {
+					walk(s, d+1)
+				}
+				return
+			}
+			other = true
+		default:
+			other = true
+		}
+	}
+	walk(v, 0)
+	return other
 }
 
 // statusOf: the status result (Extract #0) of a Next invoke.
